@@ -9,4 +9,9 @@ PROP_ASSUMPTIONS = {
         "Model/Coordinate.lean is a hand-written mirror of coordinate.rs (split_once/strip_prefix/or_else cascade, Display, lookup); tied by correspondence",
         "IndexMap::get modelled as List.lookup; Name bytes vs chars equivalence exercised with non-ASCII input",
     ],
+    "C31": [
+        "AtomicU64::fetch_add is one indivisible step that wraps modulo 2^64 (hardware/std trusted)",
+        "the translator recognises the shape of FileId::new by token pattern (fetch_add(1, …) / load+store; `id & TAG == 0` test)",
+        "thread-safety of shared Valid<Schema> (OnceLock, Send/Sync impls) is explored with real threads, not proved",
+    ],
 }
